@@ -567,7 +567,7 @@ ref_tap(void *arg, int dir, const unsigned char *data, size_t len)
 	}
 }
 
-typedef struct { int kx; unsigned version; int resumed; int cauth; int fault; } tscen;
+typedef struct { int kx; unsigned version; int resumed; int cauth; int fault; int variant; } tscen;
 
 static br_ssl_session_cache_lru lru;
 static unsigned char lru_store[2000];
@@ -575,11 +575,15 @@ static unsigned char lru_store[2000];
 static void
 scen_cfg(const tscen *sc, tp_cfg *cc, tp_cfg *sv, uint16_t *sb, uint64_t seedv)
 {
-	static const uint16_t t12[5] = { 0x009C, 0xC02F, 0xC02B, 0xC031, 0xC02D }, t10[5] = { 0x002F, 0xC013, 0xC009, 0xC00E, 0xC004 };
+	/* record protection per scenario variant: TLS 1.2: AES-GCM / CCM, ChaCha20-Poly1305, CBC with SHA-256 / the 256-bit and
+	   SHA-384 suites and ChaCha20; TLS 1.0 and 1.1 (explicit IV): AES-128-CBC / 3DES and AES-256-CBC */
+	static const uint16_t t12[3][5] = { { 0x009C, 0xC02F, 0xC02B, 0xC031, 0xC02D }, { 0xC09C, 0xCCA8, 0xC0AC, 0xC029, 0xC025 },
+		{ 0x003D, 0xC028, 0xCCA9, 0xC032, 0xC02E } };
+	static const uint16_t t10[2][5] = { { 0x002F, 0xC013, 0xC009, 0xC00E, 0xC004 }, { 0x000A, 0xC014, 0xC008, 0xC00F, 0xC005 } };
 	vf_rng r;
 	vf_rng_init(&r, seedv, 77);
 	tp_cfg_default(cc, 0); tp_cfg_default(sv, 1);
-	sb[0] = sc->version == 0x0303 ? t12[sc->kx] : t10[sc->kx];
+	sb[0] = sc->version == 0x0303 ? t12[sc->variant % 3][sc->kx] : t10[sc->variant % 2][sc->kx];
 	cc->suites = sb; cc->nsuites = 1; cc->vmin = cc->vmax = sc->version;
 	sv->keykind = tp_key_for_suite(tp_suite_find(sb[0]), 0);
 	cc->client_auth = sc->cauth; sv->client_auth = sc->cauth ? 1 : 0;
@@ -721,7 +725,7 @@ mode_tls(long long seed, int worker, int nworkers, int nrand, int nfault)
 	static const char *kxn[5] = { "RSA", "ECDHE_RSA", "ECDHE_ECDSA", "ECDH_RSA", "ECDH_ECDSA" };
 	int idx = 0, kx, res, ca, role;
 	unsigned v;
-	for (kx = 0; kx < 5; kx ++) for (v = 0x0301; v <= 0x0303; v += 2) for (res = 0; res < 2; res ++) for (ca = 0; ca < 3; ca += 2) for (role = 0; role < 2; role ++) {
+	for (kx = 0; kx < 5; kx ++) for (v = 0x0301; v <= 0x0303; v ++) for (res = 0; res < 2; res ++) for (ca = 0; ca < 3; ca += 2) for (role = 0; role < 2; role ++) {
 		tscen sc;
 		uint64_t seedv = (uint64_t)seed * 9973 + (uint64_t)idx;
 		outcome ref, o;
@@ -732,9 +736,10 @@ mode_tls(long long seed, int worker, int nworkers, int nrand, int nfault)
 		if (res && ca) continue;
 		if ((idx ++ % nworkers) != worker) continue;
 		sc.kx = kx; sc.version = v; sc.resumed = res; sc.cauth = ca; sc.fault = 0;
+		sc.variant = (int)((unsigned)seed + (unsigned)(res * 2 + (ca ? 1 : 0)) + (unsigned)role + (unsigned)kx) ;
 		E_role = role;
 		vf_rng_init(&r, seedv, 5);
-		snprintf(tp_case, sizeof tp_case, "seed=%lld tls kx=%s ver=%04x resumed=%d cauth=%d endpoint=%s", seed, kxn[kx], v, res, ca, role ? "server" : "client");
+		snprintf(tp_case, sizeof tp_case, "seed=%lld tls kx=%s ver=%04x variant=%d resumed=%d cauth=%d endpoint=%s", seed, kxn[kx], v, sc.variant, res, ca, role ? "server" : "client");
 		if (!run_reference(&sc, seedv)) { TP_VIOL("setup", "reference run failed"); tp_pair_free(&TP); continue; }
 		tp_pair_free(&TP);
 		vf_stat("scenarios", 1);
